@@ -126,8 +126,10 @@ func newEngine(stages []Stage) (*engine, error) {
 // respond pushes one response of sequence seq through the engine. Returns the
 // observable: "retry" (a RetryRequestAction was produced), "failed" (a Retry
 // processor ran and reported failed), "other" (anything else) and the key of
-// the Retry processor that ran ("" if none).
-func (e *engine) respond(seq string, id string, status int) (string, string, error) {
+// the Retry processor that ran ("" if none), and the stages whose retry
+// processor still has a counter for the sequence in the flow context the real
+// Flow owns, read after the response was processed.
+func (e *engine) respond(seq string, id string, status int, nStages int) (string, string, []int, error) {
 	e.mu.Lock()
 	e.events = nil
 	e.mu.Unlock()
@@ -145,7 +147,15 @@ func (e *engine) respond(seq string, id string, status int) (string, string, err
 		Response: &stream_config.ResponseStream{},
 	}
 	if err := e.s.ExecuteFlow(api, acts); err != nil {
-		return "", "", err
+		return "", "", nil, err
+	}
+	kept := []int{}
+	if lc := api.GetContext(); lc != nil && lc.GetFlowContext() != nil {
+		for i := 0; i < nStages; i++ {
+			if _, err := lc.GetFlowContext().Get(fmt.Sprintf("R%d::retry_counter::%s", i, seq)); err == nil {
+				kept = append(kept, i)
+			}
+		}
 	}
 	retryAction := false
 	for _, a := range acts.Response.Actions {
@@ -159,18 +169,18 @@ func (e *engine) respond(seq string, id string, status int) (string, string, err
 	for _, ev := range e.events {
 		if strings.HasPrefix(ev.key, "R") && ev.flow == "C17Flow" {
 			if ran != "" {
-				return "", "", fmt.Errorf("two retry processors ran for one response: %s and %s", ran, ev.key)
+				return "", "", nil, fmt.Errorf("two retry processors ran for one response: %s and %s", ran, ev.key)
 			}
 			ran, cond = ev.key, ev.cond
 		}
 	}
 	switch {
 	case retryAction && cond == "retry":
-		return "retry", ran, nil
+		return "retry", ran, kept, nil
 	case !retryAction && cond == "failed":
-		return "failed", ran, nil
+		return "failed", ran, kept, nil
 	case !retryAction && ran == "":
-		return "other", "", nil
+		return "other", "", kept, nil
 	}
-	return fmt.Sprintf("inconsistent(action=%v,cond=%q)", retryAction, cond), ran, nil
+	return fmt.Sprintf("inconsistent(action=%v,cond=%q)", retryAction, cond), ran, kept, nil
 }
